@@ -178,8 +178,17 @@ CHECKS = {
         "table_integrate.pl (trapezoid recurrences from either end), and that each script writes the grid and flag arrays it read.",
    note="Not decided: shell wrappers (csg_table, csg_call), table_combine/table_scale/table_extrapolate, csg_resample-based differentiation and "
         "its inverse relation to integration (numerical), CsgFunctions.pm's parsing loops. No script is executed; perl only compiles them."),
+ "C15": dict(cat="other", ref="DESIGN.md section 4 C15",
+   technique="symbolic folding of eeInteractor::FillTholeInteraction with the inter-site distance as a positive atom (R^2 = |posB-posA|^2) and exact identities; AST check of the monopole factor",
+   text="THIN partial claim: decides only the last clause of the property - the damped dipole-dipole interaction tensor is -3 l5 a a^T + l3 I "
+        "over the unit vector, hence symmetric; in the undamped branch l3 = l5 = R^-3 and the tensor is traceless; the damping factors "
+        "are (1-e^-u) and (1-(1+u)e^-u) so the tensor tends to the undamped one at large separation - and that the monopole entry is q/R.",
+   note="NOT decided (the bulk): exchange symmetry of the pair energy, translation/rotation invariance, the rank-1/2 interaction blocks, the "
+        "point-charge-cluster limit, the field/energy derivative relation. These need path-sensitive evaluation of the if-constexpr/rank "
+        "branches of VSiteA<N> or execution - outside this family. xtp is parsed, not built."),
 }
 NA = {
+ "C16": "not applicable to static analysis: label independence, exact connected components, BFS hop counts and reduce/expand round trips are properties of traversal dynamics over arbitrary graphs (queue contents, unordered_map iteration order, tie-breaking among equal start vertices); no clause has a structural necessary condition that is decidable without being trivially true of the code or flagging order dependence that does not affect the set-valued results. Needs exhaustive execution over small graphs (a different family).",
 }
 m = {"version": 1, "setup_cmd": "./setup.sh",
      "hooks": {"guard": "VOTCA_VERIF", "enable": "not used - the analysis reads unmodified sources; no hooks in /repo",
